@@ -8,6 +8,8 @@
   any number of contracts.
 -/
 import TradingVerif.Lemmas.Valuation
+import TradingVerif.Lemmas.Settled
+import Mathlib.Algebra.Order.Field.Rat
 import TradingVerif.Model.Legacy
 set_option linter.unusedSectionVars false
 set_option linter.unusedVariables false
@@ -35,6 +37,21 @@ theorem nlv_identity (pw : K → K → K) (w : World K) (D : K) (hw : ∀ k, WFS
       .ok (nlvFormula w D (runOps pw w (Broker.init D) ops)) := by
   have h := ledger_invariant pw w D hw ops hs
   have hid := netLiq_identity w D _ h hw hq
+  unfold netLiq
+  simp only [hid, Bool.false_and]
+  rfl
+
+/-- **NLV identity, flat contracts unquoted.**  The same closed form under the weaker hypothesis that only the
+    *open* positions have a liquidation quote: a contract that was traded and closed may have lost its quotes
+    (delisted, one-sided or empty book) without the valuation failing or losing the settlement of the closing
+    trade (repair F11).  `nlv_identity` is the special case in which every touched contract is quoted. -/
+theorem nlv_identity_open (pw : K → K → K) (w : World K) (D : K) (hw : ∀ k, WFSpec (w.spec k))
+    (ops : List (Op K)) (hs : (runOps pw w (Broker.init D) ops).snapped = false)
+    (hq : OpenQuoted (runOps pw w (Broker.init D) ops)) :
+    (netLiq w false (runOps pw w (Broker.init D) ops)).2 =
+      .ok (nlvFormula w D (runOps pw w (Broker.init D) ops)) := by
+  have h := ledger_invariant pw w D hw ops hs
+  have hid := netLiq_identity_open w D _ h hw hq
   unfold netLiq
   simp only [hid, Bool.false_and]
   rfl
@@ -181,5 +198,39 @@ example :
     let l2 := Legacy.transactF11 wES (Legacy.mark1F11 wES "ES" l1') ⟨"ES", -2, 90, 90⟩
     (nlvMarked wES (markAll wES b2)).toOption = some 98900 ∧ b2.margin "ES" = 0 ∧
     (nlvMarked wES l2).toOption = some 99400 ∧ l2.margin "ES" = -500 := by decide
+
+/-! ### `nlv_identity_open`: premises satisfiable and strictly weaker, at `ℚ` -/
+section NonVacuityOpen
+private def wESQ : World ℚ :=
+  { spec := fun k => if k = "ES" then { mult := 50, cashReq := 0, mr := 1 }
+                     else { mult := 2, cashReq := 1, mr := 0 }
+    fixed := 0, prop := 0, markup := 0, rateKey := "RATE", eps := 0 }
+
+/-- the state of the F11 witness: long 2 ES at 99/101, the ask is lost, the position is closed at 90: flat, book 95 / – -/
+private def f11State : Broker ℚ :=
+  let b0 : Broker ℚ := { Broker.init 100000 with ex := ({} : Exchange ℚ).step (.quote "ES" 0 (some 99) (some 101)) }
+  let b1 := transact wESQ b0 ⟨"ES", 2, 99, 101⟩
+  let b1' : Broker ℚ := { b1 with ex := b1.ex.step (.quote "ES" 1 (some 95) none) }
+  transact wESQ (markAll wESQ b1') ⟨"ES", -2, 90, 90⟩
+
+/-- non-vacuity of `nlv_identity_open`, and strictness: on this state every *open* position is quoted (there is
+    none) while the flat ES has no liquidation (mid) price - the hypothesis of `nlv_identity` fails, that of
+    `nlv_identity_open` holds, and the valuation is the closed form 98900. -/
+example : OpenQuoted f11State ∧ ¬ (∀ k ∈ f11State.held, Quoted f11State k) ∧
+    (netLiq wESQ false f11State).2.toOption = some 98900 := by
+  have hh : f11State.held = ["ES"] := by decide +kernel
+  have hp : f11State.pos "ES" = 0 := by decide +kernel
+  have hl : liqPrice f11State "ES" (f11State.pos "ES") = none := by decide +kernel
+  refine ⟨?_, ?_, by decide +kernel⟩
+  · intro k hk h0
+    rw [hh] at hk
+    have : k = "ES" := by simpa using hk
+    subst this
+    exact absurd hp h0
+  · intro h
+    obtain ⟨p, e⟩ := h "ES" (by rw [hh]; simp)
+    rw [hl] at e
+    cases e
+end NonVacuityOpen
 
 end TV
